@@ -1275,6 +1275,85 @@ class Check:
         self.out.extra["self_service"] = res
 
 
+def restart_session_part(out, wd):
+    """a session that ran out stays refused when the session store is rebuilt at start-up - from the raft log, and from a
+    snapshot once one was written while the session was still alive. Two short-TTL nodes (one per variant), in parallel."""
+    TTL = 9
+    probe = {"method": "GET", "path": B + "/user/web_resources"}
+    facts = {}
+
+    def one(variant):
+        env = {"RNACOS_CONSOLE_LOGIN_TIMEOUT": str(TTL), "RNACOS_CONSOLE_LOGIN_ONE_HOUR_LIMIT": "100000", "RUST_LOG": "warn,rnacos::raft=info"}
+        if variant == "snapshot":
+            env["RNACOS_RAFT_SNAPSHOT_LOG_SIZE"] = "20"
+        node = procrig.Node(wd, 20 + (variant == "snapshot"), env=env, name="sess-" + variant)
+        f = {"variant": variant}
+        try:
+            node.start(timeout=60)
+            tok, r = node.console_login("admin", "admin", wait=20)
+            if not tok:
+                return dict(f, inconclusive="admin login failed: %s" % r.body[:120])
+            t_login = time.time()
+            if classify(send(node, probe, tok)) != "handler":
+                return dict(f, inconclusive="fresh session not accepted")
+            if variant == "snapshot":
+                for i in range(70):
+                    node.post("/nacos/v1/cs/configs", form={"dataId": "c17s%d" % i, "group": "g", "content": "v%d" % i})
+                t1 = time.time()
+                while time.time() - t1 < 4 and "snapshot" not in node.tail_log(200000).lower():
+                    time.sleep(0.2)
+                f["snapshot_seen_in_log"] = "snapshot" in node.tail_log(200000).lower()
+                import glob
+                f["snapshot_files"] = len(glob.glob(os.path.join(node.dir, "**", "snapshot*"), recursive=True))
+            node.kill()
+            node.start(timeout=60)
+            f["restart_done_after_login_s"] = round(time.time() - t_login, 1)
+            if time.time() - t_login < TTL - 1.5:
+                f["accepted_within_ttl_after_restart"] = classify(send(node, probe, tok)) == "handler"
+            time.sleep(max(0.0, t_login + TTL + 2.5 - time.time()))
+            f["age_at_probe_s"] = round(time.time() - t_login, 1)
+            hits = []
+            for carrier in ("cookie", "header"):
+                for req in (probe, {"method": "GET", "path": B + "/user/list", "params": {"pageNo": 1, "pageSize": 10}},
+                            {"method": "POST", "path": B + "/namespaces/add", "form": {"namespaceId": "c17sx" + carrier, "namespaceName": "x"}}):
+                    r = send(node, req, tok, carrier)
+                    f["probes"] = f.get("probes", 0) + 1
+                    if passed(classify(r)):
+                        hits.append({"request": "%s %s" % (req["method"], req["path"]), "carrier": carrier, "answer": brief(r)})
+            tok2, _ = node.console_login("admin", "admin", wait=20)
+            f["fresh_login_accepted"] = bool(tok2) and classify(send(node, probe, tok2)) == "handler"
+            f["hits"] = hits
+            return f
+        except common.Inconclusive as e:
+            return dict(f, inconclusive=str(e)[:200])
+        except OSError as e:
+            return dict(f, inconclusive=repr(e)[:200])
+        finally:
+            node.kill()
+
+    with ThreadPoolExecutor(max_workers=2) as ex:
+        res = list(ex.map(one, ("log-replay", "snapshot")))
+    n = 0
+    for f in res:
+        v = f["variant"]
+        hits = f.pop("hits", None)
+        facts[v] = f
+        if "inconclusive" in f or hits is None:
+            continue
+        n += f.get("probes", 0)
+        if v == "snapshot" and not f.get("snapshot_seen_in_log"):
+            facts[v]["note"] = "no snapshot observed before the restart: counts as a second log-replay run"
+        if not f.get("fresh_login_accepted"):
+            facts[v]["inconclusive"] = "fresh login not accepted after the restart"
+            continue
+        if hits:
+            out.violation("invalid-session-accepted/expired-after-restart/%s" % v, {"session_ttl_s": TTL, "facts": f, "first": hits[0], "n_hits": len(hits)})
+        else:
+            out.shape("expired-session-after-restart/%s/refused" % v)
+    out.extra["expired_session_after_restart"] = facts
+    return n
+
+
 def leaderless_node_part(out, wd, registered):
     """a node that cannot reach a raft leader (not initialised, no join address): its session lookups fail. Every API route must
     still be refused without a session and with a garbage token - a lookup error is not a login."""
@@ -1341,6 +1420,7 @@ def run(tier, seed):
             out.extra["incomplete"] = str(e)[:500]
             common.log("C17: later phase not completed: %s" % str(e)[:300])
         leaderless_requests = leaderless_node_part(out, wd, getattr(chk, "registered", None) or [])
+        leaderless_requests += restart_session_part(out, wd)
         rq = chk.rig.requests + chk.rigb.requests + leaderless_requests
         out.evaluations = rq + chk.func_evals
         out.extra["requests"] = rq
